@@ -259,11 +259,16 @@ fn run(s: &mut Hub, ctx: &mut Ctx, opname: &str, sender: &str, msgs: Vec<CosmosM
     if r.outcome.is_ok() {
         s.model.fp_cache = None;
         if r.fault_fired {
-            if fallback_ok && matches!(fault, Fault::Query(_)) {
+            // the only documented fallbacks are the collector's two queries to the swap router (route
+            // lookup and route simulation: "if there is no swap route, skip swap and keep the asset"),
+            // including whatever the router itself queries underneath; a failing query anywhere else
+            // (bonding contract, distributor, pools, vaults, factories, tokens) must abort
+            let at_router = r.query_fault_at.first().map(|a| *a == s.router).unwrap_or(false);
+            if fallback_ok && matches!(fault, Fault::Query(_)) && at_router {
                 ctx.probe("query_fault_absorbed_by_fallback");
             } else {
                 ctx.eval("C10");
-                ctx.fail("C10", "fault_swallowed", opname, None, format!("{opname} succeeded although {fault:?} fired inside it"));
+                ctx.fail("C10", "fault_swallowed", opname, None, format!("{opname} succeeded although {fault:?} fired inside it (failed query at {:?})", r.query_fault_at));
             }
         }
     } else {
@@ -855,11 +860,17 @@ fn check_pipeline(s: &Hub, ctx: &mut Ctx, pre: &Obs, post: &Obs, out: &Outcome, 
         let pend = pre.vault_pending[v];
         let sent = flow(&fl, &s.vaults[v], col, a);
         if post.vault_pending[v] != 0 || sent != pend {
+            // N10 (bug-compatible predicate): NewEpoch asks each factory for ONE page of at most 30
+            // children; a vault that is not on that page is never asked for its fees
+            let n10 = !vault_on_first_page(s, v) && post.vault_pending[v] == pend && sent == 0;
+            if n10 {
+                ctx.probe("n10_vault_beyond_first_page_not_collected");
+            }
             ctx.fail(
                 "C10",
                 "collected",
-                "vault_fees_not_collected",
-                None,
+                if n10 { "child_beyond_the_first_30_not_collected" } else { "vault_fees_not_collected" },
+                if n10 { Some("N10") } else { None },
                 format!("vault {v}: pending {pend} before, {} after, {sent} transferred to the collector", post.vault_pending[v]),
             );
         }
@@ -877,11 +888,18 @@ fn check_pipeline(s: &Hub, ctx: &mut Ctx, pre: &Obs, post: &Obs, out: &Outcome, 
             let sent = flow(&fl, &s.pairs[p], col, *a);
             let sent_ok = if *a == 0 { sent >= exp_sent } else { sent == exp_sent };
             if post.pair_pending[p][k] != want_after || !sent_ok {
+                // N10 (bug-compatible predicate), as for vaults: the pair is registered but not on the
+                // factory's first page of 30, and nothing at all was collected from it (whatever it sent
+                // to the collector in the distribution asset are proceeds of aggregation swaps)
+                let n10 = reg && exp_sent > 0 && !pair_on_first_page(s, p) && post.pair_pending[p][k] == pend.saturating_add(charged) && (sent == 0 || *a == 0);
+                if n10 {
+                    ctx.probe("n10_pair_beyond_first_page_not_collected");
+                }
                 ctx.fail(
                     "C10",
                     "collected",
-                    if reg { "pair_fees_not_collected" } else { "unregistered_pair_touched" },
-                    None,
+                    if n10 { "child_beyond_the_first_30_not_collected" } else if reg { "pair_fees_not_collected" } else { "unregistered_pair_touched" },
+                    if n10 { Some("N10") } else { None },
                     format!(
                         "pair {p} (registered {reg}) asset {a}: pending {pend} before (collectable {exp_sent}), charged {charged} during aggregation, pending {} after (expected {want_after}); {sent} transferred to the collector",
                         post.pair_pending[p][k]
@@ -1473,5 +1491,25 @@ pub fn finish(s: &mut Hub, ctx: &mut Ctx) {
                 ctx.probe("epoch_outside_window_never_selected");
             }
         }
+    }
+}
+
+/// is pair `p` among the (at most 30) entries of the pool factory's first listing page?
+fn pair_on_first_page(s: &Hub, p: usize) -> bool {
+    let r: Result<white_whale_std::pool_network::factory::PairsResponse, String> =
+        query(&s.app, &s.factory, &white_whale_std::pool_network::factory::QueryMsg::Pairs { start_after: None, limit: Some(30) });
+    match r {
+        Ok(l) => l.pairs.iter().any(|x| x.contract_addr == s.pairs[p]),
+        Err(_) => true,
+    }
+}
+
+/// is vault `v` among the (at most 30) entries of the vault factory's first listing page?
+fn vault_on_first_page(s: &Hub, v: usize) -> bool {
+    let r: Result<white_whale_std::vault_network::vault_factory::VaultsResponse, String> =
+        query(&s.app, &s.vfactory, &white_whale_std::vault_network::vault_factory::QueryMsg::Vaults { start_after: None, limit: Some(30) });
+    match r {
+        Ok(l) => l.vaults.iter().any(|x| x.vault == s.vaults[v]),
+        Err(_) => true,
     }
 }
